@@ -497,7 +497,8 @@ class DatasetProcessor:
             if not self.args.keep_tmp:
                 logger.info("To keep these intermediate files for debug purposes use --keep_tmp flag")
 
-        total_assignments, polya_found, self.all_read_groups = self.load_read_info(saves_file)
+        total_assignments, polya_found, self.all_read_groups, unaligned_reads = self.load_read_info(saves_file)
+        self.alignment_stat_counter.stats_dict[AlignmentType.unaligned] = unaligned_reads
 
         polya_fraction = polya_found / total_assignments if total_assignments > 0 else 0.0
         logger.info("Total assignments used for analysis: %d, polyA tail detected in %d (%.1f%%)" %
@@ -594,6 +595,8 @@ class DatasetProcessor:
         write_int(total_assignments, info_dumper)
         write_int(polya_assignments, info_dumper)
         write_list(list(all_read_groups), info_dumper, write_string)
+        # unaligned reads are counted here only: kept with the saved assignments for runs that reuse them
+        write_int(self.alignment_stat_counter.stats_dict[AlignmentType.unaligned], info_dumper)
         info_dumper.close()
         open(lock_file, "w").close()
 
@@ -736,8 +739,9 @@ class DatasetProcessor:
         total_assignments = read_int(info_loader)
         polya_assignments = read_int(info_loader)
         all_read_groups = set(read_list(info_loader, read_string))
+        unaligned_reads = read_int(info_loader)
         info_loader.close()
-        return total_assignments, polya_assignments, all_read_groups
+        return total_assignments, polya_assignments, all_read_groups, unaligned_reads
 
     def merge_assignments(self, sample, aggregator, chr_ids):
         if self.args.genedb:
